@@ -360,7 +360,7 @@ def call(px, st, name, t, args, fid, fn):
     # ---- numeric conversions kept symbolic but pure
     if PURE_RE.search(n) and not MUTATOR_RE.search(n):
         if n.endswith('::binary_search') or n.endswith('::binary_search_by_key') or n.endswith('::binary_search_by'):
-            snap = tuple(px.deref_value(st, a) if a[0] in ('ref', 'cref') else a for a in args)
+            snap = tuple(px.deep_snap(st, px.deref_value(st, a) if a[0] in ('ref', 'cref') else a) for a in args)
             return [(st, ('call', n, tuple(args), st.uid(), snap))]
         return [(st, pure(n, px.snap_args(st, args)))]
     if FMT_RE.search(n):
